@@ -61,6 +61,52 @@ Definition pool_set_capacity (n : N) (r : root) : root :=
   end.
 
 Definition root_set_len_k (k : nat) (r : root) : R root := root_set_len r k.
+
+(* IoBufMut::reserve.  Fixed-capacity buffers use the DEFAULT implementation:
+   Ok iff len <= buf_capacity() - buf_len(), otherwise ReserveError::NotSupported.
+   Vec / BytesMut grow like std's RawVec (max(8, 2*cap, len+additional)), SmallVec to
+   the next power of two of len+additional.  After a growth the harness refills the
+   new spare capacity with canaries, so does [root_grow]. *)
+Inductive rsv := RsOk | RsNotSupported.
+
+Definition grow_vec (cap len add : nat) : nat := Nat.max 8 (Nat.max (2 * cap) (len + add)).
+
+Fixpoint pow2_from (fuel p n : nat) : nat :=
+  match fuel with
+  | O => p
+  | S f => if n <=? p then p else pow2_from f (2 * p) n
+  end.
+Definition next_pow2 (n : nat) : nat := pow2_from n 1 n.
+
+Definition root_grow (r : root) (newcap : nat) : root :=
+  mkroot (rkind r) (firstn (rlen r) (rcells r) ++ canaries_from (rlen r) (newcap - rlen r))
+         (rlen r) (rlim r).
+
+Definition root_reserve (k : nat) (r : root) : R (rsv * root) :=
+  match rkind r with
+  | KVec | KBytesMut =>
+      if k <=? rcap r - rlen r then Ok (RsOk, r)
+      else Ok (RsOk, root_grow r (grow_vec (rcap r) (rlen r) k))
+  | KSmallVec =>
+      if k <=? rcap r - rlen r then Ok (RsOk, r)
+      else Ok (RsOk, root_grow r (next_pow2 (rlen r + k)))
+  | KArray | KArrayVec | KPool =>
+      let! spare := usub (rcap r) (rlen r) in
+      if k <=? spare then Ok (RsOk, r) else Ok (RsNotSupported, r)
+  end.
+
+(* the views of the initialised bytes a root offers besides as_init: Deref and
+   DerefMut (BufferRef: slice::from_raw_parts(_mut)(ptr, len)) *)
+Definition root_deref (r : root) : nat * nat := (0, rlen r).
+Definition root_deref_mut (r : root) : nat * nat := (0, rlen r).
+
+(* (b + 1) mod 256 on the cells [off, off+len): what the harness does through a
+   mutable view of the initialised bytes *)
+Definition bump_cells (cells : list byte) (off len : nat) : list byte :=
+  firstn off cells ++ map (fun b => N.modulo (b + 1) 256) (firstn len (skipn off cells))
+  ++ skipn (off + len) cells.
+Definition root_bump (off len : nat) (r : root) : root :=
+  with_cells r (bump_cells (rcells r) off len).
 Definition root_init (r : root) : R (nat * nat) := Ok (0, rlen r).
 Definition root_uninit (r : root) : R (nat * nat) := Ok (0, rcap r).
 Definition root_write (off : nat) (bs : list byte) (r : root) : root :=
@@ -155,6 +201,58 @@ Section Views.
     let! l := buf_len v s in Ok (VUninit v l).
 End Views.
 
+Section Views2.
+  Context {S : Type}.
+  Variable base_init : S -> R (nat * nat).
+  Variable base_uninit : S -> R (nat * nat).
+  Variable base_set_len : nat -> S -> R S.
+  Variable base_reserve : nat -> S -> R (rsv * S).
+  Variable base_write : nat -> list byte -> S -> S.
+  Variable base_alloc : S -> nat.    (* size of the allocation the offsets refer to *)
+
+  (* IoBufMut::reserve: Slice refuses when it has an end, otherwise Slice and
+     Uninit hand the request to the buffer below *)
+  Fixpoint reserve (v : view) (k : nat) (s : S) : R (rsv * S) :=
+    match v with
+    | VBase => base_reserve k s
+    | VSlice v _ (Some _) => Ok (RsNotSupported, s)
+    | VSlice v _ None => reserve v k s
+    | VUninit v _ => reserve v k s
+    end.
+
+  (* IoBufMutExt::as_mut_slice: from_raw_parts_mut(buf_mut_ptr(), buf_len()) *)
+  Definition as_mut_slice (v : view) (s : S) : R (nat * nat) :=
+    let! l := buf_len base_init v s in
+    let! rg := as_uninit base_init base_uninit v s in
+    Ok (fst rg, l).
+
+  (* <Slice<T> as DerefMut>::deref_mut: buffer.as_mut_slice()[initialized_range];
+     for a view that is not a Slice: as_init again *)
+  Definition slice_deref_mut (v : view) (s : S) : R (nat * nat) :=
+    match v with
+    | VSlice v0 b e => let! rg := as_mut_slice v0 s in sub_range rg b e
+    | _ => as_init base_init v s
+    end.
+
+  (* IoBufMutExt::extend_from_slice: reserve, copy_nonoverlapping to
+     buf_mut_ptr() + buf_len() (a raw copy: no bounds check; a copy that would leave
+     the allocation is memory corruption, which the harness traps: code 4), then
+     advance_to(buf_len + len) *)
+  Definition extend_from_slice (v : view) (bs : list byte) (s : S) : R (rsv * S) :=
+    let! init := buf_len base_init v s in
+    let! '(res, s1) := reserve v (length bs) s in
+    match res with
+    | RsNotSupported => Ok (res, s1)
+    | RsOk =>
+      let! rg := as_uninit base_init base_uninit v s1 in
+      if fst rg + init + length bs <=? base_alloc s1 then
+        let! s3 := advance_to base_init base_set_len v (init + length bs)
+                     (base_write (fst rg + init) bs s1) in
+        Ok (RsOk, s3)
+      else Panic P_SET_LEN
+    end.
+End Views2.
+
 (* the instance over a root *)
 Definition r_as_init := as_init root_init.
 Definition r_as_uninit := as_uninit root_init root_uninit.
@@ -163,6 +261,12 @@ Definition r_advance_to := advance_to root_init root_set_len_k.
 Definition r_advance := advance root_init root_set_len_k.
 Definition r_mk_slice := mk_slice root_init.
 Definition r_mk_uninit := mk_uninit root_init.
+Definition root_alloc (r : root) : nat := length (rcells r).
+Definition r_reserve := reserve root_reserve.
+Definition r_as_mut_slice := as_mut_slice root_init root_uninit.
+Definition r_slice_deref_mut := slice_deref_mut root_init root_uninit.
+Definition r_extend :=
+  extend_from_slice root_init root_uninit root_set_len_k root_reserve root_write root_alloc.
 
 (* a fill, as an I/O operation does it: write at the start of the writable
    region, then record the count with advance_to (compio-driver op/ext.rs) *)
@@ -365,6 +469,26 @@ Definition i_advance (c : container) (w : vview) :=
 Definition i_set_len (c : container) (w : vview) := set_len (viter_set_len c w).
 Definition i_mk_slice (w : vview) := mk_slice (i_base_init w).
 Definition i_mk_uninit (w : vview) := mk_uninit (i_base_init w).
+
+(* VectoredBufIter has the DEFAULT reserve *)
+Definition i_base_reserve (w : vview) (k : nat) (s : istate) : R (rsv * istate) :=
+  let! i := i_base_init w s in
+  let! u := i_base_uninit w s in
+  let! spare := usub (snd u) (snd i) in
+  if k <=? spare then Ok (RsOk, s) else Ok (RsNotSupported, s).
+Definition i_base_write (w : vview) (off : nat) (bs : list byte) (s : istate) : istate :=
+  match viter_uninit w (fst s) (snd s) with
+  | Ok x => (fst s, write_member (snd s) (fst (fst x)) off bs)
+  | Panic _ => s
+  end.
+Definition i_base_alloc (w : vview) (s : istate) : nat :=
+  match viter_uninit w (fst s) (snd s) with
+  | Ok x => match nth_error (snd s) (fst (fst x)) with Some m => length (rcells m) | None => 0 end
+  | Panic _ => 0
+  end.
+Definition i_extend (c : container) (w : vview) :=
+  extend_from_slice (i_base_init w) (i_base_uninit w) (viter_set_len c w)
+                    (i_base_reserve w) (i_base_write w) (i_base_alloc w).
 
 (* a fill through (a view over) the iterator: write at the start of the
    writable region of the current member, record with advance_to *)
